@@ -411,7 +411,18 @@ impl FileSpec {
                     .unwrap_or(name),
                 None => name,
             };
-            (name.to_string(), path.clone())
+            // (shorter names first: r99999 is older than r100000;
+            // this must not take the extension ".restart-<number>" of the infix into account)
+            let (name, restart) = match name.find(".restart-") {
+                Some(index) => name.split_at(index),
+                None => (name, ""),
+            };
+            (
+                name.len(),
+                name.to_string(),
+                restart.to_string(),
+                path.clone(),
+            )
         });
         log_files.reverse();
         log_files
